@@ -6,14 +6,14 @@ from gen_http import Request, Header, Chunk
 
 HARNESS = "rx_driver"
 LEAN_MODULES = ["ViaProofs.C01"]
-LEMMA_MODULES = ['ViaProofs.Frag.Lines', 'ViaProofs.Frag.Headers', 'ViaProofs.Frag.Compose', 'ViaProofs.C05', 'ViaProofs.Trans.RL', 'ViaProofs.Trans.FL', 'ViaProofs.Trans.CH', 'ViaProofs.Trans.MH']
+LEMMA_MODULES = ['ViaProofs.Frag.Lines', 'ViaProofs.Frag.Headers', 'ViaProofs.Frag.Compose', 'ViaProofs.C05', 'ViaProofs.Trans.RL', 'ViaProofs.Trans.FL', 'ViaProofs.Trans.CH', 'ViaProofs.Trans.MH', 'ViaProofs.Trans.CK']
 REQUIRED_THEOREMS = ['Via.C01_frag', 'Via.RR.receive_head_seq', 'Via.RR.receive_head_fail_seq', 'Via.RR.receive_body_seq', "Via.RR.feedHead_flatten'"]
 LEVEL = "proof"
 RULE = ("well-formed requests (hand-written feature set + random within each configuration's limits) x partitions into reads "
         "(whole, byte-wise, line-wise, every single cut, every pair of cuts for short messages, cuts at structural offsets, "
         "random k-cuts) x configurations (limits, STRICT_CRLF, container, chunk concatenation, HEAD translation); expected "
         "deliveries are computed from the message parts; non-trivial = more than one read; distinct = distinct (config, message, partition)")
-TRUSTED_BASE = ["tools/cxx2lean.py (translator of the parse_char / parse state machines and of message_headers::parse: RL, FL, CH from the current C++ into Lean; the model is proved equal to the translation in ViaProofs/Trans)", "Lean 4.33 kernel", "axioms: propext, Classical.choice, Quot.sound at most",
+TRUSTED_BASE = ["tools/cxx2lean.py (translator of the parse_char / parse state machines and of message_headers::parse and rx_chunk::parse: RL, FL, CH from the current C++ into Lean; the model is proved equal to the translation in ViaProofs/Trans)", "Lean 4.33 kernel", "axioms: propext, Classical.choice, Quot.sound at most",
                 "rx_driver harness (real request_receiver driven like http_server::receive_handler) + via_model driver",
                 "std::string / std::vector<char> / unordered_map modelled as lists / association lists"]
 ASSUMPTIONS = ["the per-read loop of rx_driver is the loop of http_server::receive_handler with an application that answers inside "
